@@ -40,6 +40,19 @@ func mergeProgram(r *core.Rng, tier string, ds []string, faults bool) *prog.Prog
 	pg.Steps = append(pg.Steps[:pos:pos], append(ms, pg.Steps[pos:]...)...)
 	pg.Steps = append(pg.Steps, prog.Step{K: prog.SReopen})
 	pg.Renumber()
+	if r.Bool(0.3) {
+		// leave the records of a failed multi-entry commit in a segment before
+		// the Merge: a write error on a later entry of an earlier transaction
+		for _, st := range pg.Steps {
+			if st.K == prog.SMerge {
+				break
+			}
+			if st.K == prog.STx && st.End == "" && len(st.Ops) >= 2 && r.Bool(0.5) {
+				pg.Faults = append(pg.Faults, core.Fault{StepID: st.ID, Class: "write", Nth: 1 + r.Intn(len(st.Ops)-1), Kind: "eio"})
+				break
+			}
+		}
+	}
 	if faults && r.Bool(0.4) {
 		var merges []int
 		for _, st := range pg.Steps {
@@ -90,7 +103,7 @@ func init() {
 	}
 	c16 := func(tier string) func(uint64, *prog.Program) *RunResult {
 		return func(seed uint64, p *prog.Program) *RunResult {
-			res := crashExec(seed, p, c16pol(tier), judgeMode{Recovery: true}, run.Options{Deferred: true})
+			res := crashExec(seed, p, c16pol(tier), judgeMode{Recovery: true, ContinueP: 0.3}, run.Options{Deferred: true})
 			res.Nontrivial = res.Images >= 3
 			return res
 		}
@@ -105,7 +118,7 @@ func init() {
 				sp := deepPolicy(true, true, false)(r)
 				sp.Phases = map[string]bool{"merge": true}
 				return sp
-			}, judgeMode{Recovery: true}, run.Options{Deferred: true})
+			}, judgeMode{Recovery: true, ContinueP: 0.3}, run.Options{Deferred: true})
 		},
 		Classes: classes("recovery", "open-failed", "open-panic"),
 	})
